@@ -175,7 +175,8 @@ PROPS = {
              "repeating shapes, well-formed and not (RESP commands / replies / one array of k elements / k nested arrays; AMQP "
              "k body frames after a content header announcing the exact size, 0, 1, one frame or 2^64-1, k messages, k headers, "
              "k table entries, heartbeats; Kafka k requests, k topics, one correlation id k times; HTTP k pipelined messages, "
-             "k headers, k cookies, k chunks, k query parameters, HTTP/2 k DATA frames / streams / open streams / header fields / pings), "
+             "k headers, k cookies, k chunks, k query parameters, HTTP/2 k DATA frames / streams / open streams / header fields / pings / one k-byte "
+             "value indexed and repeated k times by its index - the shape of the recorded finding h2-hpack-expansion, whose absolute bounds are excused while its growth is not), "
              "each measured at k=64 and k=512 (thorough also 256 and 4096): the allocation at the larger size may not exceed twice "
              "what the smaller run predicts for that many bytes; wide cases: HTTP messages with 256000 distinct header / cookie names (thorough: also "
              "query, form-field and response-header names), dissected as whole exchanges so that the item is analysed, against the linear time "
